@@ -2,12 +2,169 @@
 package thrift_reflection
 
 import (
+	"sort"
+	"strings"
+
 	"github.com/cloudwego/thriftgo/generator/golang/extension/meta"
 	"github.com/cloudwego/thriftgo/parser"
 	"github.com/cloudwego/thriftgo/semantic"
 
 	zzrt "github.com/cloudwego/thriftgo/internal/zzverifrt"
 )
+
+// ---- value provider of the generated builders (zz_structs.go), see harness/c11 -------------------
+
+type zzC struct {
+	mode int
+	seq  int
+}
+
+func (c *zzC) pattern(path string) int {
+	if c.mode == 4 {
+		if strings.Count(path, ".") <= 1 {
+			return 4
+		}
+		return 2
+	}
+	return c.mode
+}
+
+func (c *zzC) opt(path string) bool {
+	c.seq++
+	switch c.pattern(path) {
+	case 0:
+		return false
+	case 1:
+		return true
+	case 2:
+		return c.seq%2 == 0
+	case 3:
+		return c.seq%2 == 1
+	}
+	return zzrt.Bool(path + "?")
+}
+
+func (c *zzC) bool(path string) bool {
+	c.seq++
+	if strings.Count(path, ".") <= 1 {
+		return zzrt.Bool(path)
+	}
+	return c.seq%2 == 0
+}
+
+func (c *zzC) n(path string, d int) int {
+	if d <= 0 {
+		return 0
+	}
+	c.seq++
+	switch c.pattern(path) {
+	case 0:
+		return 0
+	case 1:
+		return 1
+	case 2:
+		return c.seq % 3
+	case 3:
+		return (c.seq + 1) % 3
+	}
+	return zzrt.Choose(path+"#", 2)
+}
+
+func (c *zzC) str(path string) string {
+	c.seq++
+	return zzrt.String(path, c.seq%3)
+}
+
+func zzDec(d int) int {
+	if d > 0 {
+		return d - 1
+	}
+	return 0
+}
+
+func zzItoa(i int) string {
+	if i == 0 {
+		return "0"
+	}
+	neg := i < 0
+	if neg {
+		i = -i
+	}
+	s := ""
+	for ; i > 0; i /= 10 {
+		s = string(rune('0'+i%10)) + s
+	}
+	if neg {
+		s = "-" + s
+	}
+	return s
+}
+
+// ---- the programs ---------------------------------------------------------------------------------
+
+var zzProg0 = map[string]string{
+	"main.thrift": `include "inc/common.thrift"
+include "shared.thrift"
+namespace go c15.main
+namespace java jm
+cpp_include "x.h"
+// struct comment
+struct S {
+  1: required i32 a = 5 (k1 = "v1", k1 = "v2", k2 = "w")
+  2: optional map<string, list<common.CE>> m
+  3: shared.Sh sh
+  -1: common.CT ct
+  5: set<binary> bins
+  6: E e = E.B
+  7: list<U> us
+} (sk = "sv")
+union U { 1: i64 x; 2: string y }
+exception X { 1: string msg (m = "") }
+enum E { A = 1 (ea = "1"), B, C = 10 }
+typedef S TS (tk = "tv")
+typedef map<i32, TS> TM
+const i32 CI = -7
+const double CD = 1.5
+const string CS = "str"
+const bool CB = true
+const list<i32> CL = [1, 2]
+const map<string, i32> CM = {"a": 1, "b": 2}
+const E CE = E.A
+const S CT = {"a": 3}
+service Base extends shared.SharedSvc { void ping() }
+service Svc extends Base {
+  S call(1: S req, 2: common.CS cs) throws (1: X x, 2: common.CX cx) (ma = "mv")
+  oneway void fire(1: i64 n)
+  list<E> es()
+} (sva = "x")
+`,
+	"inc/common.thrift": `include "../shared.thrift"
+namespace go c15.common
+enum CE { P = 0, Q = 5 }
+typedef shared.Sh CT
+struct CS { 1: i32 v }
+exception CX { 1: i32 code }
+`,
+	"shared.thrift": `namespace go c15.shared
+struct Sh { 1: string s }
+service SharedSvc { i32 base() }
+`,
+}
+
+// the same IDL base name in two directories
+var zzProg1 = map[string]string{
+	"main.thrift": `include "a/common.thrift"
+include "b/common.thrift"
+namespace go c15.m1
+struct S { 1: common.A x }
+`,
+	"a/common.thrift": `namespace go c15.pa
+struct A { 1: i32 v }
+`,
+	"b/common.thrift": `namespace go c15.pb
+struct B { 1: i32 v }
+`,
+}
 
 func zzCompile(files map[string]string) *parser.Thrift {
 	ast, err := parser.ParseBatchString("main.thrift", files, nil)
@@ -23,19 +180,476 @@ func zzCompile(files map[string]string) *parser.Thrift {
 	return ast
 }
 
-func H_C15_try() {
-	ast := zzCompile(map[string]string{"main.thrift": `namespace go a.b
-struct S { 1: required i32 a = 5 (k = "v"), 2: optional map<string, list<i64>> m }
-enum E { A = 1, B }
-const map<string, i32> CM = {"a": 1}
-service Svc { S call(1: S req) }
-`})
+// ---- rendering descriptors (sorted, independent of map order) --------------------------------------
+
+func zzType(t *TypeDescriptor) string {
+	if t == nil {
+		return "void"
+	}
+	s := t.Name
+	if t.KeyType != nil || t.ValueType != nil {
+		s += "<"
+		if t.KeyType != nil {
+			s += zzType(t.KeyType) + ","
+		}
+		s += zzType(t.ValueType) + ">"
+	}
+	return s
+}
+
+func zzAnn(m map[string][]string) string {
+	var ks []string
+	for k := range m {
+		ks = append(ks, k)
+	}
+	sort.Strings(ks)
+	s := ""
+	for _, k := range ks {
+		s += k + "=[" + strings.Join(m[k], "|") + "]"
+	}
+	return s
+}
+
+func zzVal(v *ConstValueDescriptor) string {
+	if v == nil {
+		return "-"
+	}
+	switch v.Type {
+	case ConstValueType_INT:
+		return "i:" + zzItoa(int(v.ValueInt))
+	case ConstValueType_DOUBLE:
+		if v.ValueDouble == 1.5 {
+			return "d:1.5"
+		}
+		return "d:?"
+	case ConstValueType_STRING:
+		return "s:" + v.ValueString
+	case ConstValueType_BOOL:
+		if v.ValueBool {
+			return "b:true"
+		}
+		return "b:false"
+	case ConstValueType_IDENTIFIER:
+		return "id:" + v.ValueIdentifier
+	case ConstValueType_LIST:
+		s := "["
+		for _, x := range v.ValueList {
+			s += zzVal(x) + ";"
+		}
+		return s + "]"
+	case ConstValueType_MAP:
+		var es []string
+		for k, x := range v.ValueMap {
+			es = append(es, zzVal(k)+"=>"+zzVal(x))
+		}
+		sort.Strings(es)
+		return "{" + strings.Join(es, ";") + "}"
+	}
+	return "?"
+}
+
+func zzField(f *FieldDescriptor) string {
+	return zzItoa(int(f.ID)) + ":" + f.Requiredness + ":" + zzType(f.Type) + ":" + f.Name + ":" + zzVal(f.DefaultValue) + ":" + zzAnn(f.Annotations) + ":" + f.Filepath
+}
+
+func zzStruct(s *StructDescriptor) string {
+	out := s.Name + "@" + s.Filepath + "(" + zzAnn(s.Annotations) + ")"
+	for _, f := range s.Fields {
+		out += "\n  " + zzField(f)
+	}
+	return out
+}
+
+func zzDumpFD(fd *FileDescriptor) string {
+	var sb strings.Builder
+	sb.WriteString("file " + fd.Filepath + "\n")
+	var ks []string
+	for k, v := range fd.Includes {
+		ks = append(ks, "include "+k+"="+v)
+	}
+	for k, v := range fd.Namespaces {
+		ks = append(ks, "namespace "+k+"="+v)
+	}
+	sort.Strings(ks)
+	sb.WriteString(strings.Join(ks, "\n") + "\n")
+	for _, s := range fd.Structs {
+		sb.WriteString("struct " + zzStruct(s) + "\n")
+	}
+	for _, s := range fd.Unions {
+		sb.WriteString("union " + zzStruct(s) + "\n")
+	}
+	for _, s := range fd.Exceptions {
+		sb.WriteString("exception " + zzStruct(s) + "\n")
+	}
+	for _, e := range fd.Enums {
+		sb.WriteString("enum " + e.Name + "@" + e.Filepath + "(" + zzAnn(e.Annotations) + ")")
+		for _, v := range e.Values {
+			sb.WriteString(" " + v.Name + "=" + zzItoa(int(v.Value)) + "(" + zzAnn(v.Annotations) + ")")
+		}
+		sb.WriteString("\n")
+	}
+	for _, t := range fd.Typedefs {
+		sb.WriteString("typedef " + zzType(t.Type) + " " + t.Alias + "@" + t.Filepath + "(" + zzAnn(t.Annotations) + ")\n")
+	}
+	for _, c := range fd.Consts {
+		sb.WriteString("const " + zzType(c.Type) + " " + c.Name + "@" + c.Filepath + " = " + zzVal(c.Value) + "\n")
+	}
+	for _, s := range fd.Services {
+		sb.WriteString("service " + s.Name + "@" + s.Filepath + " extends '" + s.Base + "' (" + zzAnn(s.Annotations) + ")\n")
+		for _, m := range s.Methods {
+			sb.WriteString("  " + zzType(m.Response) + " " + m.Name + " oneway=")
+			if m.IsOneway {
+				sb.WriteString("1")
+			} else {
+				sb.WriteString("0")
+			}
+			sb.WriteString(" (" + zzAnn(m.Annotations) + ")\n")
+			for _, a := range m.Args {
+				sb.WriteString("    arg " + zzField(a) + "\n")
+			}
+			for _, a := range m.ThrowExceptions {
+				sb.WriteString("    throws " + zzField(a) + "\n")
+			}
+		}
+	}
+	return sb.String()
+}
+
+// what main.thrift of program 0 states, written by hand from the IDL text (members of a throws
+// list are optional: the compiler's checker normalises them before anything is generated)
+const zzWant0 = `file main.thrift
+include common=inc/common.thrift
+include shared=shared.thrift
+namespace go=c15.main
+namespace java=jm
+struct S@main.thrift(sk=[sv])
+  1:Required:i32:a:i:5:k1=[v1|v2]k2=[w]:main.thrift
+  2:Optional:map<string,list<common.CE>>:m:-::main.thrift
+  3:Default:shared.Sh:sh:-::main.thrift
+  -1:Default:common.CT:ct:-::main.thrift
+  5:Default:set<binary>:bins:-::main.thrift
+  6:Default:E:e:id:E.B::main.thrift
+  7:Default:list<U>:us:-::main.thrift
+union U@main.thrift()
+  1:Optional:i64:x:-::main.thrift
+  2:Optional:string:y:-::main.thrift
+exception X@main.thrift()
+  1:Default:string:msg:-:m=[]:main.thrift
+enum E@main.thrift() A=1(ea=[1]) B=2() C=10()
+typedef S TS@main.thrift(tk=[tv])
+typedef map<i32,TS> TM@main.thrift()
+const i32 CI@main.thrift = i:-7
+const double CD@main.thrift = d:1.5
+const string CS@main.thrift = s:str
+const bool CB@main.thrift = b:true
+const list<i32> CL@main.thrift = [i:1;i:2;]
+const map<string,i32> CM@main.thrift = {s:a=>i:1;s:b=>i:2}
+const E CE@main.thrift = id:E.A
+const S CT@main.thrift = {s:a=>i:3}
+service Base@main.thrift extends 'shared.SharedSvc' ()
+  void ping oneway=0 ()
+service Svc@main.thrift extends 'Base' (sva=[x])
+  S call oneway=0 (ma=[mv])
+    arg 1:Default:S:req:-::main.thrift
+    arg 2:Default:common.CS:cs:-::main.thrift
+    throws 1:Optional:X:x:-::main.thrift
+    throws 2:Optional:common.CX:cx:-::main.thrift
+  void fire oneway=1 ()
+    arg 1:Default:i64:n:-::main.thrift
+  list<E> es oneway=0 ()
+`
+
+// H_C15_fidelity: the descriptor of every file says what the IDL says.
+func H_C15_fidelity() {
+	ast := zzCompile(zzProg0)
 	fd := GetFileDescriptor(ast)
-	bs, err := meta.Marshal(fd)
-	zzrt.Assert(err == nil, "marshal")
-	fd2 := NewFileDescriptor()
-	err = meta.Unmarshal(bs, fd2)
-	zzrt.Assert(err == nil, "unmarshal")
-	zzrt.Assert(fd2.Filepath == "main.thrift" && len(fd2.Structs) == 1 && fd2.Structs[0].Fields[0].Annotations["k"][0] == "v", "content")
+	got := zzDumpFD(fd)
+	zzrt.Assert(got == zzWant0, "descriptor of main.thrift: "+zzFirstDiff(got, zzWant0))
+	zzrt.Assert(fd.Structs[0].Comments == "// struct comment", "struct comment")
+	cm := GetFileDescriptor(ast.Includes[0].Reference)
+	zzrt.Assert(zzDumpFD(cm) == `file inc/common.thrift
+include shared=shared.thrift
+namespace go=c15.common
+struct CS@inc/common.thrift()
+  1:Default:i32:v:-::inc/common.thrift
+exception CX@inc/common.thrift()
+  1:Default:i32:code:-::inc/common.thrift
+enum CE@inc/common.thrift() P=0() Q=5()
+typedef shared.Sh CT@inc/common.thrift()
+`, "descriptor of inc/common.thrift: "+zzDumpFD(cm))
 	zzrt.Cover("end")
+}
+
+func zzFirstDiff(a, b string) string {
+	la, lb := strings.Split(a, "\n"), strings.Split(b, "\n")
+	for i := 0; i < len(la) && i < len(lb); i++ {
+		if la[i] != lb[i] {
+			return "got '" + la[i] + "' want '" + lb[i] + "'"
+		}
+	}
+	return "length"
+}
+
+// H_C15_holes: one struct, one enum, one constant whose numbers, annotation value,
+// requiredness and type spelling are free.
+func H_C15_holes(kind int) {
+	dig := func(name string, lo byte) (string, int) {
+		b := zzrt.Byte(name)
+		zzrt.Assume(b >= lo && b <= '9')
+		return string(rune(b)), int(b - '0')
+	}
+	idText, id := "1", 1
+	enText, en := "3", 3
+	av := "v"
+	cText, cv := "4", 4
+	req, reqWant := "", "Default"
+	typ, typWant := "i32", "i32"
+	neg := ""
+	switch kind {
+	case 0: // field id: 1..2 free digits, optionally negative
+		a, x := dig("id1", '1')
+		b, y := dig("id2", '0')
+		idText, id = a+b, x*10+y
+		if zzrt.Bool("neg") {
+			idText, id = "-"+idText, -id
+		}
+	case 1: // enum number
+		a, x := dig("en1", '1')
+		b, y := dig("en2", '0')
+		c, z := dig("en3", '0')
+		enText, en = a+b+c, x*100+y*10+z
+	case 2: // annotation value: 2 free bytes
+		av = zzrt.String("av", 2)
+		for i := 0; i < len(av); i++ {
+			zzrt.Assume(av[i] != '"' && av[i] != '\\' && av[i] >= 0x20 && av[i] < 0x7f)
+		}
+	case 3: // constant / default value
+		a, x := dig("c1", '1')
+		b, y := dig("c2", '0')
+		cText, cv = a+b, x*10+y
+		if zzrt.Bool("neg") {
+			neg, cv = "-", -cv
+		}
+	case 4:
+		switch zzrt.Choose("req", 3) {
+		case 1:
+			req, reqWant = "required", "Required"
+		case 2:
+			req, reqWant = "optional", "Optional"
+		}
+		spell := []string{"i32", "list<string>", "set<HE>", "map<string, list<i64>>", "map<HE,H>", "binary", "H", "HT"}
+		want := []string{"i32", "list<string>", "set<HE>", "map<string,list<i64>>", "map<HE,H>", "binary", "H", "HT"}
+		k := zzrt.Choose("type", len(spell))
+		typ, typWant = spell[k], want[k]
+	}
+	src := "namespace go h\ntypedef i64 HT\nstruct H {\n  " + idText + ": " + req + " " + typ + " f (ak = \"" + av + "\", ak = \"second\")\n  100: i64 g = " + neg + cText + "\n}\n" +
+		"enum HE { X = " + enText + ", Y }\nconst i64 HC = " + neg + cText + "\n"
+	ast := zzCompile(map[string]string{"main.thrift": src})
+	fd := GetFileDescriptor(ast)
+	f := fd.Structs[0].Fields[0]
+	zzrt.Assert(int(f.ID) == id, "field id")
+	zzrt.Assert(f.Requiredness == reqWant, "requiredness")
+	zzrt.Assert(zzType(f.Type) == typWant, "type expression")
+	zzrt.Assert(len(f.Annotations["ak"]) == 2 && f.Annotations["ak"][0] == av && f.Annotations["ak"][1] == "second", "annotation values in order")
+	zzrt.Assert(fd.Structs[0].Fields[1].DefaultValue.Type == ConstValueType_INT && int(fd.Structs[0].Fields[1].DefaultValue.ValueInt) == cv, "default value")
+	zzrt.Assert(int(fd.Enums[0].Values[0].Value) == en && int(fd.Enums[0].Values[1].Value) == en+1, "enum numbers")
+	zzrt.Assert(int(fd.Consts[0].Value.ValueInt) == cv, "constant value")
+	// and it survives the encoding
+	bs, err := fd.Marshal()
+	zzrt.Assert(err == nil, "Marshal")
+	fd2, err := Unmarshal(bs)
+	zzrt.Assert(err == nil, "Unmarshal")
+	zzEq_FileDescriptor(fd, fd2, "fd")
+	zzrt.Cover("end")
+}
+
+// H_C15_identity: Unmarshal(Marshal(fd)) == fd for an arbitrary descriptor.
+func H_C15_identity(mode int) {
+	c := &zzC{mode: mode}
+	fd := zzSym_FileDescriptor(c, 3, "fd")
+	bs, err := fd.Marshal()
+	zzrt.Assert(err == nil, "Marshal")
+	fd2, err := Unmarshal(bs)
+	zzrt.Assert(err == nil, "Unmarshal")
+	zzEq_FileDescriptor(fd, fd2, "fd")
+	zzrt.Cover("end")
+}
+
+func H_C15_identity_node(ti int, mode int) {
+	c := &zzC{mode: mode}
+	zzNodeCase(c, ti)
+	zzrt.Cover("end")
+}
+
+type zzMetaNode interface{}
+
+func zzRoundTrip(a, b zzMetaNode, what string) {
+	bs, err := meta.Marshal(a)
+	zzrt.Assert(err == nil, what+": meta.Marshal")
+	zzrt.Assert(meta.Unmarshal(bs, b) == nil, what+": meta.Unmarshal")
+}
+
+// H_C15_parsed: the descriptors of real programs survive the encoding (real gzip).
+func H_C15_parsed(prog int) {
+	ast := zzCompile([]map[string]string{zzProg0, zzProg1}[prog])
+	var walk func(a *parser.Thrift)
+	walk = func(a *parser.Thrift) {
+		fd := GetFileDescriptor(a)
+		bs, err := fd.Marshal()
+		zzrt.Assert(err == nil, "Marshal")
+		fd2, err := Unmarshal(bs)
+		zzrt.Assert(err == nil, "Unmarshal")
+		zzEq_FileDescriptor(fd, fd2, a.Filename)
+		for _, inc := range a.Includes {
+			walk(inc.Reference)
+		}
+	}
+	walk(ast)
+	zzrt.Cover("end")
+}
+
+// zzIdent: a free identifier (a name with a '.' is an alias-qualified name, not a name)
+func zzIdent(name string, n int) string {
+	s := zzrt.String(name, n)
+	for i := 0; i < len(s); i++ {
+		c := s[i]
+		zzrt.Assume(c == '_' || (c >= '0' && c <= '9') || (c >= 'a' && c <= 'z') || (c >= 'A' && c <= 'Z'))
+	}
+	return s
+}
+
+// H_C15_lookup: lookups by name and id find the right entry across included files.
+func H_C15_lookup(what int) {
+	ast := zzCompile(zzProg0)
+	gd, fd := RegisterAST(ast)
+	defer ReleaseGlobalDescriptors(gd)
+	switch what {
+	case 0: // files
+		for _, p := range []string{"main.thrift", "inc/common.thrift", "shared.thrift"} {
+			f := gd.LookupFD(p)
+			zzrt.Assert(f != nil && f.Filepath == p, "LookupFD "+p)
+		}
+		p := zzrt.String("path", 3)
+		zzrt.Assert(gd.LookupFD(p) == nil, "no descriptor for a file that is not part of the program")
+		zzrt.Assert(fd == gd.LookupFD("main.thrift"), "RegisterAST returns the main file's descriptor")
+	case 1: // global names of the main file, by a free name of 1..2 bytes
+		n := zzIdent("name", 1+zzrt.Choose("len", 2))
+		in := func(set ...string) bool {
+			for _, s := range set {
+				if s == n {
+					return true
+				}
+			}
+			return false
+		}
+		s := gd.LookupStruct(n, "main.thrift")
+		zzrt.Assert((s != nil) == in("S"), "LookupStruct")
+		zzrt.Assert(s == nil || (s.Name == n && s.Filepath == "main.thrift"), "LookupStruct result")
+		u := gd.LookupUnion(n, "main.thrift")
+		zzrt.Assert((u != nil) == in("U") && (u == nil || u.Name == n), "LookupUnion")
+		x := gd.LookupException(n, "main.thrift")
+		zzrt.Assert((x != nil) == in("X") && (x == nil || x.Name == n), "LookupException")
+		e := gd.LookupEnum(n, "main.thrift")
+		zzrt.Assert((e != nil) == in("E") && (e == nil || e.Name == n), "LookupEnum")
+		t := gd.LookupTypedef(n, "main.thrift")
+		zzrt.Assert((t != nil) == in("TS", "TM") && (t == nil || t.Alias == n), "LookupTypedef")
+		c := gd.LookupConst(n, "main.thrift")
+		zzrt.Assert((c != nil) == in("CI", "CD", "CS", "CB", "CL", "CM", "CE", "CT") && (c == nil || c.Name == n), "LookupConst")
+		// the included files have their own tables
+		zzrt.Assert((gd.LookupStruct(n, "inc/common.thrift") != nil) == in("CS"), "LookupStruct in an included file")
+		zzrt.Assert((gd.LookupStruct(n, "shared.thrift") != nil) == in("Sh"), "LookupStruct in a file included twice")
+		zzrt.Assert((gd.LookupEnum(n, "inc/common.thrift") != nil) == in("CE"), "LookupEnum in an included file")
+		zzrt.Assert((gd.LookupTypedef(n, "inc/common.thrift") != nil) == in("CT"), "LookupTypedef in an included file")
+		zzrt.Assert((fd.GetStructDescriptor(n) != nil) == in("S"), "GetStructDescriptor")
+		zzrt.Assert((fd.GetStructDescriptor("common."+n) != nil) == in("CS"), "GetStructDescriptor through an include alias")
+		zzrt.Assert((fd.GetStructDescriptor("shared."+n) != nil) == in("Sh"), "GetStructDescriptor through the other alias")
+	case 2: // type descriptors resolve to the entry of the right file
+		s := fd.Structs[0]
+		sh := s.GetFieldByName("sh").Type
+		d, err := sh.GetStructDescriptor()
+		zzrt.Assert(err == nil && d != nil && d.Name == "Sh" && d.Filepath == "shared.thrift", "shared.Sh resolves into shared.thrift")
+		zzrt.Assert(sh.IsStruct() && !sh.IsEnum() && !sh.IsTypedef() && !sh.IsUnion() && !sh.IsException() && !sh.IsBasic() && !sh.IsContainer(), "kind of shared.Sh")
+		ct := s.GetFieldByName("ct").Type
+		td, err := ct.GetTypedefDescriptor()
+		zzrt.Assert(err == nil && td != nil && td.Alias == "CT" && td.Filepath == "inc/common.thrift", "common.CT resolves into inc/common.thrift")
+		d, err = td.Type.GetStructDescriptor()
+		zzrt.Assert(err == nil && d != nil && d.Name == "Sh" && d.Filepath == "shared.thrift", "the typedef's target resolves relative to the typedef's own file")
+		m := s.GetFieldByName("m").Type
+		zzrt.Assert(m.IsMap() && m.IsContainer() && m.ValueType.IsList() && !m.IsList(), "container kinds")
+		ed, err := m.ValueType.ValueType.GetEnumDescriptor()
+		zzrt.Assert(err == nil && ed != nil && ed.Name == "CE" && ed.Filepath == "inc/common.thrift", "common.CE resolves into inc/common.thrift")
+		e := s.GetFieldByName("e").Type
+		zzrt.Assert(e.IsEnum() && !e.IsStruct(), "kind of E")
+		us := s.GetFieldByName("us").Type.ValueType
+		zzrt.Assert(us.IsUnion() && !us.IsStruct(), "kind of U")
+		call := fd.GetMethodDescriptor("Svc", "call")
+		zzrt.Assert(call != nil && call.ThrowExceptions[1].Type.IsException(), "kind of common.CX")
+		xd, err := call.ThrowExceptions[1].Type.GetExceptionDescriptor()
+		zzrt.Assert(err == nil && xd.Name == "CX" && xd.Filepath == "inc/common.thrift", "common.CX resolves into inc/common.thrift")
+		ts := fd.GetTypedefDescriptor("TM").Type.ValueType
+		zzrt.Assert(ts.IsTypedef() && !ts.IsStruct(), "kind of TS")
+	case 3: // services
+		svc := fd.GetServiceDescriptor("Svc")
+		zzrt.Assert(svc != nil && svc.GetParent() != nil && svc.GetParent().Name == "Base", "parent in the same file")
+		base := svc.GetParent().GetParent()
+		zzrt.Assert(base != nil && base.Name == "SharedSvc" && base.Filepath == "shared.thrift", "parent in an included file")
+		zzrt.Assert(base.GetParent() == nil, "no parent")
+		all := svc.GetAllMethods()
+		names := ""
+		for _, m := range all {
+			names += m.Name + " "
+		}
+		zzrt.Assert(names == "call fire es ping base ", "all methods, own first: "+names)
+		n := zzIdent("m", 2+zzrt.Choose("len", 3))
+		found := svc.GetMethodByNameFromAll(n)
+		zzrt.Assert((found != nil) == (n == "call" || n == "fire" || n == "es" || n == "ping" || n == "base"), "GetMethodByNameFromAll")
+		zzrt.Assert((svc.GetMethodByName(n) != nil) == (n == "call" || n == "fire" || n == "es"), "GetMethodByName")
+		zzrt.Assert((fd.GetMethodDescriptor("Svc", n) != nil) == (n == "call" || n == "fire" || n == "es"), "GetMethodDescriptor")
+		zzrt.Assert((gd.LookupMethod(n, "SharedSvc", "shared.thrift") != nil) == (n == "base"), "LookupMethod")
+		zzrt.Assert(gd.LookupService("Svc", "main.thrift") == svc && gd.LookupService("Svc", "shared.thrift") == nil, "LookupService")
+	case 4: // fields by id and name
+		s := fd.Structs[0]
+		id := zzrt.Int32("id")
+		f := s.GetFieldById(id)
+		want := id == 1 || id == 2 || id == 3 || id == -1 || id == 5 || id == 6 || id == 7
+		zzrt.Assert((f != nil) == want, "GetFieldById finds exactly the declared ids")
+		zzrt.Assert(f == nil || f.ID == id, "GetFieldById returns the field with that id")
+		n := zzIdent("fname", 1+zzrt.Choose("len", 3))
+		g := s.GetFieldByName(n)
+		wantN := n == "a" || n == "m" || n == "sh" || n == "ct" || n == "bins" || n == "e" || n == "us"
+		zzrt.Assert((g != nil) == wantN && (g == nil || g.Name == n), "GetFieldByName")
+		zzrt.Assert(s.GetFieldById(1).IsRequired() && s.GetFieldById(2).IsOptional() && s.GetFieldById(3).IsDefault(), "requiredness predicates")
+	}
+	zzrt.Cover("end")
+}
+
+// H_C15_samebase: two included files with the same base name in different directories.
+func H_C15_samebase() {
+	ast := zzCompile(zzProg1)
+	gd, fd := RegisterAST(ast)
+	defer ReleaseGlobalDescriptors(gd)
+	zzrt.Assert(gd.LookupFD("a/common.thrift") != nil && gd.LookupFD("b/common.thrift") != nil, "both files are registered")
+	zzrt.Assert(gd.LookupStruct("A", "a/common.thrift") != nil && gd.LookupStruct("B", "b/common.thrift") != nil, "both files keep their own tables")
+	x := fd.Structs[0].Fields[0].Type
+	d, err := x.GetStructDescriptor()
+	zzrt.Cover("end")
+	zzrt.Known("KF-C15-same-base-name-include", err == nil && d != nil && d.Name == "A" && d.Filepath == "a/common.thrift",
+		"FileDescriptor.Includes is keyed by the base name of the included file, so of two includes a/common.thrift and b/common.thrift only the last survives and common.A (declared in the first) no longer resolves from its descriptor")
+}
+
+// ---- concrete differential ------------------------------------------------------------------------
+
+func D_C15_dump() string {
+	ast := zzCompile(zzProg0)
+	s := zzDumpFD(GetFileDescriptor(ast)) + zzDumpFD(GetFileDescriptor(ast.Includes[1].Reference))
+	fd := GetFileDescriptor(ast)
+	bs, err := fd.Marshal()
+	if err != nil {
+		return "ERR " + err.Error()
+	}
+	fd2, err := Unmarshal(bs)
+	if err != nil {
+		return "ERR " + err.Error()
+	}
+	return s + zzDumpFD(fd2) + fd.Structs[0].Comments + "|" + fd2.Services[1].Methods[2].Comments
 }
